@@ -301,6 +301,109 @@ func judgeAnalyze(s *Spec, a *Agg, body string) *finding {
 	if !near(got["Min"], mn) || !near(got["Max"], mx) {
 		return &finding{"analyze-vs-reference", fmt.Sprintf("Min %v Max %v, reference %.4f / %.4f", got["Min"], got["Max"], mn, mx)}
 	}
+	return judgeAnalyzeExtra(s, a, body, near)
+}
+
+var anExtraRe = regexp.MustCompile(`^(Median|Mode|P[0-9.]+):\s+(\S+)\s*$`)
+
+// judgeAnalyzeExtra: with -x the screen also shows the median, the mode and one line per -q quantile (default 90, 99,
+// 99.9), taken from the samples in ascending order (descending with -r). Same latitude as C07 takes at the aggregator:
+// the median is one of the two middle order statistics, the mode one of the most frequent values, a quantile an order
+// statistic whose rank is within one of p*n. The screen shows four decimals.
+func judgeAnalyzeExtra(s *Spec, a *Agg, body string, near func(x, w float64) bool) *finding {
+	extra, rev := false, false
+	var qs []float64
+	for i, f := range s.CmdArgs {
+		switch f {
+		case "-x", "--extra":
+			extra = true
+		case "-r", "--reverse":
+			rev = true
+		case "-q", "--quantile":
+			if i+1 < len(s.CmdArgs) {
+				if q, err := strconv.ParseFloat(s.CmdArgs[i+1], 64); err == nil {
+					qs = append(qs, q)
+				}
+			}
+		}
+	}
+	if !extra {
+		return nil
+	}
+	if qs == nil {
+		qs = []float64{90, 99, 99.9}
+	}
+	n := len(a.nums)
+	sorted := append([]float64(nil), a.nums...)
+	sort.Float64s(sorted)
+	for _, v := range sorted {
+		if math.IsNaN(v) || math.IsInf(v, 0) {
+			return nil // order statistics of non-finite samples: not judged here
+		}
+	}
+	at := func(i int) float64 {
+		if rev {
+			return sorted[n-1-i]
+		}
+		return sorted[i]
+	}
+	type line struct {
+		name string
+		v    float64
+	}
+	var lines []line
+	for _, ln := range strings.Split(body, "\n") {
+		if m := anExtraRe.FindStringSubmatch(ln); m != nil {
+			v, err := strconv.ParseFloat(strings.ReplaceAll(m[2], ",", ""), 64)
+			if err != nil {
+				return &finding{"analyze-vs-reference", fmt.Sprintf("cannot read the number in %s", run.Q(ln))}
+			}
+			lines = append(lines, line{m[1], v})
+		}
+	}
+	if len(lines) != 2+len(qs) {
+		return &finding{"analyze-vs-reference", fmt.Sprintf("analyze -x with %d quantiles shows %d of the Median / Mode / P lines: %s", len(qs), len(lines), run.Q(body))}
+	}
+	if lines[0].name != "Median" || lines[1].name != "Mode" {
+		return &finding{"analyze-vs-reference", fmt.Sprintf("analyze -x: expected Median and Mode lines first, got %s and %s", lines[0].name, lines[1].name)}
+	}
+	if med := lines[0].v; !near(med, at((n-1)/2)) && !near(med, at(n/2)) {
+		return &finding{"analyze-vs-reference", fmt.Sprintf("Median %v, middle order statistics of the %d samples are %v / %v (reverse=%v)", med, n, at((n-1)/2), at(n/2), rev)}
+	}
+	best, cntMode := 0, 0
+	for i := 0; i < n; {
+		j := i
+		for j < n && sorted[j] == sorted[i] {
+			j++
+		}
+		if j-i > best {
+			best = j - i
+		}
+		if near(lines[1].v, sorted[i]) && j-i > cntMode {
+			cntMode = j - i
+		}
+		i = j
+	}
+	if cntMode != best {
+		return &finding{"analyze-vs-reference", fmt.Sprintf("Mode %v occurs %d times, the most frequent value occurs %d times", lines[1].v, cntMode, best)}
+	}
+	for k, q := range qs {
+		ln := lines[2+k]
+		if want := fmt.Sprintf("P%02.4f", q); ln.name != want {
+			return &finding{"analyze-vs-reference", fmt.Sprintf("quantile line %d is labelled %s, expected %s", k, ln.name, want)}
+		}
+		pn := q / 100 * float64(n)
+		ok := false
+		for i := 0; i < n; i++ {
+			if near(ln.v, at(i)) && math.Abs(float64(i+1)-pn) <= 1+1e-9 {
+				ok = true
+				break
+			}
+		}
+		if !ok && pn <= float64(n) {
+			return &finding{"analyze-vs-reference", fmt.Sprintf("%s = %v is not an order statistic of rank within 1 of %v (n=%d, reverse=%v)", ln.name, ln.v, pn, n, rev)}
+		}
+	}
 	return nil
 }
 
